@@ -148,6 +148,8 @@ pub fn install_panic_hook() {
                 let f = l.file();
                 match f.strip_prefix("/repo/") {
                     Some(lib) => format!("{}:{}", lib, l.line()),
+                    // the standard library (called from the code under test or from the harness)
+                    None if f.starts_with("/rustc/") => format!("std:{}:{}", f.rsplit("/library/").next().unwrap_or(f), l.line()),
                     None => format!("harness:{}:{}", f, l.line()),
                 }
             })
